@@ -861,11 +861,12 @@ fn gen_case(rng: &mut Rng, cfg: &Cfg) -> Case {
     let unbonding_secs = *rng.pick(&[1u64, 60, 60, 3600]);
     let nops = 3 + rng.usize(p.ops);
     let admin_bias = cfg.property == "C12" || rng.chance(1, 4);
-    let plain_accounts = if rng.chance(1, if cfg.property == "C12" || cfg.property == "C05" { 3 } else { 6 }) { 1 + rng.below(3) as u8 } else { 0 };
+    let plain_accounts = if rng.chance(1, if cfg.property == "C12" || cfg.property == "C05" { 3 } else { 6 }) { 1 + rng.below(4) as u8 } else { 0 };
     let plain_accounts = plain_accounts.min(n_accounts.saturating_sub(1) as u8);
     // the favourite admin: account 0, or (half of the runs that have one) the plain-named "owner"
     let admin_acct = if plain_accounts > 0 && rng.chance(1, 2) { n_accounts - 1 } else { 0 };
-    let mut g = Gen { rng, p, nid: 0, n_accounts, n_denoms, n_validators, n_codes: 0, n_slots: 0, n_live: 0, admin_bias, admin_acct, huge_left: n_denoms.saturating_sub(1), many_done: false, self_admin: vec![], nodes_left: 0, uniq: 0, recent: vec![] };
+    let prestore = rng.chance(1, if cfg.property == "C11" || cfg.property == "C20" { 3 } else { 8 });
+    let mut g = Gen { rng, p, nid: 0, n_accounts, n_denoms, n_validators, n_codes: if prestore { 1 } else { 0 }, n_slots: 0, n_live: 0, admin_bias, admin_acct, huge_left: n_denoms.saturating_sub(1), many_done: false, self_admin: vec![], nodes_left: 0, uniq: 0, recent: vec![] };
     let mut ops = vec![];
     // setup prefix: codes and a few contracts (at least two from the same code)
     let ncodes = 2 + g.rng.below(3);
@@ -930,7 +931,7 @@ fn gen_case(rng: &mut Rng, cfg: &Cfg) -> Case {
     }
     let adv_rate = if cfg.property == "C08" || cfg.property == "C11" { 4 } else { 12 };
     let adv_addr = g.rng.chance(1, adv_rate);
-    Case { prefix: g.rng.below(4) as u8, n_accounts, n_denoms, n_validators, init_balances, module_faults, unbonding_secs, module_cfg, adv_addr, creator_checksums: g.rng.chance(1, 5), plain_accounts, focus: cfg.property.clone(), ops }
+    Case { prefix: g.rng.below(4) as u8, n_accounts, n_denoms, n_validators, init_balances, module_faults, unbonding_secs, module_cfg, adv_addr, creator_checksums: g.rng.chance(1, 5), plain_accounts, focus: cfg.property.clone(), prestore, ops }
 }
 
 // ------------------------------------------------------------------ minimisation
